@@ -11,6 +11,7 @@ import (
 	"sort"
 	"strings"
 	"testing"
+	"time"
 )
 
 // ---------------------------------------------------------------------------
@@ -25,18 +26,18 @@ import (
 // ---------------------------------------------------------------------------
 
 type declProvider struct {
-	Req      []int  // required type ids (>= 100: injector argument types, 99: context.Context)
-	Async    bool   `json:",omitempty"`
-	Fallible bool   `json:",omitempty"`
-	Extra    bool   `json:",omitempty"` // provides a second result group (type id 50+k)
-	Bind     bool   `json:",omitempty"` // first group also provides an interface type (id 70+k)
-	Struct   []int  `json:",omitempty"` // Struct expansion of the first result: field type ids (30+..)
+	Req      []int // required type ids (>= 100: injector argument types, 99: context.Context)
+	Async    bool  `json:",omitempty"`
+	Fallible bool  `json:",omitempty"`
+	Extra    bool  `json:",omitempty"` // provides a second result group (type id 50+k)
+	Bind     bool  `json:",omitempty"` // first group also provides an interface type (id 70+k)
+	Struct   []int `json:",omitempty"` // Struct expansion of the first result: field type ids (30+..)
 }
 
 type decl struct {
 	P      []declProvider
-	Order  []int // declaration order (permutation of provider indices)
-	Return int   // requested type id
+	Order  []int  // declaration order (permutation of provider indices)
+	Return int    // requested type id
 	Plant  string `json:",omitempty"` // "", "cycle:<from>-><to>", "dup:<k>", "orphan"
 }
 
@@ -190,8 +191,8 @@ func typeID(t types.Type) int {
 
 type planStep struct {
 	thread, pos int
-	call       *InjectorProviderCallStmt
-	field      *InjectorFieldAccessStmt
+	call        *InjectorProviderCallStmt
+	field       *InjectorFieldAccessStmt
 }
 
 func planOf(inj *Injector) (steps []*planStep, threads [][]*planStep, err string) {
@@ -597,9 +598,30 @@ func TestVerifBoundedDecls(t *testing.T) {
 		}
 		return len(res.Failures) < 4
 	}
+	// wall-clock budget: the enumeration stops (without a failure) when it is used up, and the evidence says so
+	budget := 90 * time.Second
+	if kvcTier() == "thorough" {
+		budget = 300 * time.Second
+	}
+	started := time.Now()
+	phaseDeadline := started.Add(budget * 7 / 10)
+	timedOut := false
 	run := func(d *decl) bool {
+		if evals%64 == 0 && time.Now().After(phaseDeadline) {
+			timedOut = true
+			return false
+		}
 		evals++
 		md, bd := d.build()
+		// the contracts kvc ASSUMES for NewGraph / topologicalSortIter / findMaximumAntichainSize, evaluated on the real code
+		if evals%3 == 0 {
+			mdA, bdA := d.build()
+			if gA, errA := NewGraph(mdA, bdA, NewVarPool()); errA == nil {
+				if msg := assumedPlannerContracts(gA); msg != "" {
+					return fail("ASSUMED.planner_input_contracts", msg, d)
+				}
+			}
+		}
 		inj, err := CreateInjector(md, bd, NewVarPool())
 		if d.Plant != "" {
 			if err == nil {
@@ -704,6 +726,9 @@ func TestVerifBoundedDecls(t *testing.T) {
 		})
 	}
 	// larger random declarations
+	enumStopped := timedOut
+	timedOut = false
+	phaseDeadline = started.Add(budget)
 	bigN := 6
 	rounds := 3000
 	if kvcTier() == "thorough" {
@@ -762,6 +787,7 @@ func TestVerifBoundedDecls(t *testing.T) {
 	res.Evidence = map[string]any{
 		"labelled": "bounded - executed on the real planner (CreateInjector), not counted as proof", "evaluations": evals, "distinct_nontrivial": nontrivial,
 		"refused_planted_defects": refused, "samples": samples, "exhaustive": false, "violated_clauses": clauses,
+		"time_budget_s": budget.Seconds(), "enumeration_stopped_on_time_budget": enumStopped, "random_phase_stopped_on_time_budget": timedOut, "wall_s": time.Since(started).Seconds(),
 		"rule": fmt.Sprintf("declarations with <= %d providers enumerated in canonical form (<= 2 requirements each from earlier providers' results, extra result groups, bound interfaces, expanded struct fields, an argument type and context.Context; every Async / fallible / multi-value / Bind mask; struct expansion; every declaration order for <= 3 providers; the largest size thinned by the seed (1:10 quick, 1:3 thorough)), each also with planted back edges, a duplicate supplier, a struct expansion with two fields of one type and an orphan Struct; plus %d seeded random declarations with up to %d providers; non-trivial = the plan has >= 2 threads, or a planted defect", maxN, rounds, bigN),
 	}
 	res.emit()
@@ -787,4 +813,88 @@ func reaches(d *decl, from, to int) bool {
 		return false
 	}
 	return visit(from)
+}
+
+// assumedPlannerContracts evaluates, on a graph the real NewGraph accepted, what the proof of (*Graph).Build assumes:
+// graphWF (edges point at argument slots of provider nodes and name an existing value of their source, every slot is
+// fed by exactly one edge, a field-access node has its struct slot, the return value is in range), the iterator contract (every node exactly once, every edge
+// forward) and "at least one pool for a non-empty graph". Returns "" if all hold.
+func assumedPlannerContracts(g *Graph) string {
+	retCount := func(n *node) int {
+		if n.providerSpec == nil {
+			return 1
+		}
+		return len(n.providerSpec.Provides)
+	}
+	for _, n := range g.nodes {
+		if n == nil || (n.arg != nil) == (n.providerSpec != nil) {
+			return "graphWF: a node is neither exactly an argument nor exactly a provider"
+		}
+	}
+	type slot struct {
+		m *node
+		d int
+	}
+	fed := map[slot]bool{}
+	for n, es := range g.edges {
+		for _, e := range es {
+			if e == nil || e.node == nil || e.node.providerSpec == nil {
+				return "graphWF: an edge does not point at a provider node"
+			}
+			if e.provideArgDst < 0 || e.provideArgDst >= len(e.node.providerArgs) {
+				return fmt.Sprintf("graphWF: edge targets slot %d of a node with %d slots", e.provideArgDst, len(e.node.providerArgs))
+			}
+			if e.provideArgSrc < 0 || e.provideArgSrc >= retCount(n) {
+				return fmt.Sprintf("graphWF: edge names value %d of a node with %d values", e.provideArgSrc, retCount(n))
+			}
+			if fed[slot{e.node, e.provideArgDst}] {
+				return "graphWF: two edges feed the same argument slot"
+			}
+			fed[slot{e.node, e.provideArgDst}] = true
+		}
+	}
+	for _, m := range g.nodes {
+		if m.providerSpec == nil {
+			continue
+		}
+		if m.providerSpec.Type == ProviderTypeFieldAccess && len(m.providerArgs) < 1 {
+			return "topoOK: a field-access node has no argument slot"
+		}
+		for d := range m.providerArgs {
+			if !fed[slot{m, d}] {
+				return fmt.Sprintf("topoOK: argument slot %d of a provider node is fed by no edge", d)
+			}
+		}
+	}
+	if g.returnValue == nil || g.returnValue.node == nil || g.returnValue.returnIndex < 0 || g.returnValue.returnIndex >= retCount(g.returnValue.node) {
+		return "graphWF: return value out of range"
+	}
+	pos := map[*node]int{}
+	k := 0
+	for n := range g.topologicalSortIter() {
+		if _, dup := pos[n]; dup {
+			return "iterator: a node is yielded twice"
+		}
+		pos[n] = k
+		k++
+	}
+	if k != len(g.nodes) {
+		return fmt.Sprintf("iterator: yields %d of %d nodes", k, len(g.nodes))
+	}
+	for n, es := range g.edges {
+		for _, e := range es {
+			pn, ok1 := pos[n]
+			pm, ok2 := pos[e.node]
+			if !ok1 || !ok2 || pn >= pm {
+				return "iterator: an edge does not point forward in the yield order"
+			}
+		}
+	}
+	if _, ok := pos[g.returnValue.node]; !ok {
+		return "iterator: the return node is not yielded"
+	}
+	if len(g.nodes) >= 1 && g.findMaximumAntichainSize() < 1 {
+		return "findMaximumAntichainSize: no pool for a non-empty graph"
+	}
+	return ""
 }
